@@ -131,6 +131,8 @@ type Exec struct {
 	mutexes map[string]*mutexState
 	onces   map[string]*onceState
 	wgs     map[string]*wgState
+	atomics     map[string]Value
+	timerStates map[string]*timerState
 	chanSeq int
 	mapSeq  int
 	ctxSeq  int
@@ -163,7 +165,7 @@ type Exec struct {
 
 func (x *Explorer) newExec() *Exec {
 	e := &Exec{x: x, symSeq: map[string]int{}, globals: map[*ssa.Global]*Obj{},
-		mutexes: map[string]*mutexState{}, onces: map[string]*onceState{}, wgs: map[string]*wgState{},
+		mutexes: map[string]*mutexState{}, onces: map[string]*onceState{}, wgs: map[string]*wgState{}, atomics: map[string]Value{}, timerStates: map[string]*timerState{},
 		sentinels: map[string]Value{}, typeCache: map[string]types.Type{}}
 	e.now = IntC(0)
 	return e
